@@ -15,7 +15,7 @@ LL=$(dirname "$(rustup which --toolchain nightly rustc)")/../lib/rustlib/x86_64-
 mkdir -p "$T" "$P" "$R/evidence" "$R/replays"
 cp "$VERIF/known_findings.json" "$R/"
 export PUBLISH_SKIP_BUILD=1 CARGO_NET_OFFLINE=true
-( cd "$VERIF/harness" && RUSTFLAGS="-C instrument-coverage" CARGO_TARGET_DIR="$T" cargo +nightly build --release --offline 2>&1 | tail -3 ) || exit 2
+( cd "$VERIF/harness" && LLVM_PROFILE_FILE="$W/build-%p.profraw.ignore" RUSTFLAGS="-C instrument-coverage" CARGO_TARGET_DIR="$T" cargo +nightly build --release --offline 2>&1 | tail -3 ) || exit 2
 for p in $IDS; do
   BIN=$T/release/mc; [ "$p" = C18 ] && BIN=$T/release/ffi_audit
   s=$(date +%s)
